@@ -316,6 +316,36 @@ func (t *tr) assert(f Term, kind, label string, pos token.Pos, desc string) *Obl
 	return ob
 }
 
+// safety emits a run-time safety condition: an obligation, or — when the unit declares that it may panic —
+// a branch to the panic exit (the declared panic condition is then checked there).
+func (t *tr) safety(f Term, kind string, pos token.Pos, desc string) {
+	if t.cur == nil {
+		return
+	}
+	if t.mayPanicOut() && len(t.guard) == 0 && !t.hasRecoverOnly() {
+		if f.S == "true" {
+			return
+		}
+		bt, bf := t.branch(f)
+		t.cur = bf
+		t.panicExit(pos)
+		t.cur = bt
+		return
+	}
+	t.assert(f, kind, "", pos, desc)
+}
+
+// hasRecoverOnly: the unit recovers panics but does not declare any panic condition itself; run-time
+// failures are then still obligations unless the contract carries `flag recover_safety`.
+func (t *tr) hasRecoverOnly() bool {
+	c := t.u.Contract
+	declared := c != nil && (c.MayPanic || len(c.clauses("panics_if")) > 0)
+	if declared {
+		return false
+	}
+	return !(c != nil && c.Flags["recover_safety"] == "true")
+}
+
 // cover emits a reachability check: the current point must be reachable (SAT).
 func (t *tr) cover(label string, pos token.Pos) {
 	if t.cur == nil || t.dry > 0 {
